@@ -151,7 +151,7 @@ Section Trust.
 
   Lemma gather_in_notools t st : In t (r_targets r) -> gather_in r st t = gather (read r st) (all_paths r t).
   Proof.
-    intros Ht. unfold gather_in. rewrite (Hnt t Ht). cbn [gather anon_ins map].
+    intros Ht. unfold gather_in. rewrite (Hnt t Ht). cbn [gather tool_ins map].
     destruct (gather (read r st) (all_paths r t)) as [a|]; [|reflexivity]. rewrite app_nil_r. reflexivity.
   Qed.
 
@@ -922,15 +922,15 @@ Section History.
 
   Let TrustU := Trust U good.
 
-  Lemma step_wf_parts c r req : step_wf (HBuild c r req) = true ->
+  Lemma step_wf_parts c r req : step_wf_t (HBuild c r req) = true ->
     WF (restrict r req) /\ distinct_srcs (restrict r req) = true
     /\ forall t, In t (r_targets (restrict r req)) -> tool_paths (restrict r req) t = [].
   Proof.
-    cbn [step_wf]. intros H. apply andb_prop in H. destruct H as [H H3]. apply andb_prop in H. destruct H as [H1 H2].
+    cbn [step_wf_t step_wf step_tool_free]. intros H. apply andb_prop in H. destruct H as [H H3]. apply andb_prop in H. destruct H as [H1 H2].
     split; [apply wf_repo_WF; exact H1|]. split; [exact H2|apply tool_free_paths; exact H3].
   Qed.
 
-  Lemma trust_history : forall h st, forallb step_wf h = true ->
+  Lemma trust_history : forall h st, forallb step_wf_t h = true ->
     (forall t, In t (history_targets h) -> U t) -> (forall n, In n (history_fg_srcs h) -> good n) ->
     quiet_history h st = true -> TrustU st -> TrustU (run_history h st).
   Proof.
@@ -966,7 +966,7 @@ Section History.
   (* after any history (builds with or without the cache, rm -rf plz-out) in which no target with output_dirs
      went through stale_flow, a build - with or without the cache - agrees with a clean build without cache *)
   Theorem incremental_is_clean c h r req :
-    forallb step_wf (h ++ [HBuild c r req]) = true ->
+    forallb step_wf_t (h ++ [HBuild c r req]) = true ->
     (forall t, In t (history_targets (h ++ [HBuild c r req])) -> U t) ->
     (forall n, In n (history_fg_srcs (h ++ [HBuild c r req])) -> good n) ->
     quiet_history (h ++ [HBuild c r req]) empty_store = true ->
@@ -1028,6 +1028,8 @@ Proof.
       cbn [map snd]. constructor; [eexists; reflexivity|constructor].
     + destruct (outputs t) as [|o [|o2 rest]]; try discriminate. destruct (all_files _); [|discriminate].
       intros H. injection H as <-. cbn [map snd]. constructor; [eexists; reflexivity|constructor].
+    + destruct (outputs t) as [|o [|o2 rest]]; try discriminate. intros H. injection H as <-.
+      cbn [map snd]. constructor; [eexists; reflexivity|constructor].
     + discriminate.
   - discriminate.
   - destruct (outputs t) as [|o [|o2 rest]]; try discriminate. intros H. injection H as <-.
@@ -1090,8 +1092,16 @@ Proof.
   destruct (fg_src_shape _ _ _ E) as [[c0 ->]|[es ->]]; [exists c0; reflexivity|discriminate].
 Qed.
 
+Lemma wf_t_of h : forallb step_wf h = true -> tool_free_history h = true -> forallb step_wf_t h = true.
+Proof.
+  unfold tool_free_history. induction h as [|s0 h IH]; cbn [forallb]; [reflexivity|]. intros H1 H2.
+  apply andb_prop in H1. apply andb_prop in H2. destruct H1 as [A1 B1], H2 as [A2 B2].
+  unfold step_wf_t at 1. rewrite A1, A2, (IH B1 B2). reflexivity.
+Qed.
+
 Theorem incremental_is_clean_files c h r req :
-  wf_history (h ++ [HBuild c r req]) -> dir_free (h ++ [HBuild c r req]) ->
+  wf_history (h ++ [HBuild c r req]) -> tool_free_history (h ++ [HBuild c r req]) = true ->
+  dir_free (h ++ [HBuild c r req]) ->
   fg_dir_free (h ++ [HBuild c r req]) = true ->
   quiet_history (h ++ [HBuild c r req]) empty_store = true ->
   let incr := plz_build c r req (run_history h empty_store) in
@@ -1101,14 +1111,14 @@ Theorem incremental_is_clean_files c h r req :
   /\ forall t, In t (r_targets (restrict r req)) -> ~ In (t_label t) (rn_failed clean) ->
      outs_of (rn_st incr) t = outs_of (rn_st clean) t /\ all_outs_of (rn_st incr) t = all_outs_of (rn_st clean) t.
 Proof.
-  intros [Hwf Hkeys] Hdf Hfd Hq.
+  intros [Hwf Hkeys] Htf Hdf Hfd Hq. pose proof (wf_t_of _ Hwf Htf) as Hwft.
   set (U := fun t => In t (history_targets (h ++ [HBuild c r req]))).
   assert (H1 : forall t t', U t -> U t' -> t_defkey t = t_defkey t' -> t = t') by (intros t t' Ht Ht'; apply Hkeys; assumption).
   assert (H2 : forall c, is_file (File false c)) by (intros c0; exists c0; reflexivity).
   assert (H3 : forall t ins news, U t -> Forall is_file (map snd ins) ->
              result t ins = Some news -> Forall is_file (map snd news))
     by (intros t ins news Ut; apply result_files; apply Hdf; exact Ut).
-  destruct (incremental_is_clean U is_file H1 is_file_inj H2 H3 c h r req Hwf (fun t Ht => Ht) (fg_dir_free_files _ Hfd) Hq) as [Hf Ho].
+  destruct (incremental_is_clean U is_file H1 is_file_inj H2 H3 c h r req Hwft (fun t Ht => Ht) (fg_dir_free_files _ Hfd) Hq) as [Hf Ho].
   cbn zeta in *. split; [unfold run_ok; rewrite Hf; reflexivity|]. split; [exact Hf|exact Ho].
 Qed.
 
